@@ -557,7 +557,12 @@ impl<'r> Renderer<'r> {
             self.last_leaf_null = true;
             return;
         }
-        if self.r.chance(1, 8) {
+        if adjacent_ok && multi && self.r.chance(1, 6) {
+            // after a JSON-like key (quoted scalar, flow collection) the ':' may stand on a later line,
+            // with the value still adjacent to it
+            self.flow_sep(true, block_n, false);
+            self.note("separation-before-colon-after-json-like-key");
+        } else if self.r.chance(1, 8) {
             self.out.push(' ');
         }
         self.out.push(':');
